@@ -254,6 +254,13 @@ def rule_flow(ctx):
     ctx.check(has5 and has16, "R3", "is_tls_traffic", "needs 5 bytes and content type 0x16", "TLS header test lost its length (5) or handshake-type (0x16) check", ctx.loc(tb))
 
 
+def rule_retained(ctx):
+    """R3: half-reassembled flows survive until their own result / error / TTL - nothing else clears the flow cache"""
+    from . import _workers as W
+    W.state_retained(ctx, ctx.program, "huginn_net_tls", "tls", "R3", 2)
+
+
 def run(ctx):
     rule_reader(ctx)
     rule_flow(ctx)
+    rule_retained(ctx)
